@@ -4,7 +4,7 @@ from mon.gen import mdp as G
 
 
 def random_pomdp(rng, n_max=4, a_max=3, o_max=3, special=None, allow_live_absorbing=True,
-                 allow_ghost_obs=False, gamma=None, min_states=2, reward_sign=None):
+                 allow_ghost_obs=False, gamma=None, min_states=2, reward_sign=None, tiny_probs=False):
     sp = G.random_spec(rng, "any", n_max=n_max, a_max=a_max, uniform_actions=True, min_states=min_states,
                        allow_zero_entries=True, allow_live_absorbing=allow_live_absorbing,
                        label_kind=rng.choice(["int", "str", "tuple", "mixed"]),
@@ -35,6 +35,11 @@ def random_pomdp(rng, n_max=4, a_max=3, o_max=3, special=None, allow_live_absorb
                 k = rng.randint(1, len(obs))
                 chosen = rng.sample(obs, k)
                 probs = G.rand_probs(rng, k)
+                if tiny_probs and k == 2 and rng.random() < 0.3:
+                    # a rare but possible observation (sensor false-alarm rate): exact floats 1-d, d
+                    d = rng.choice([2.0 ** -30, 1e-9, 1e-12, 2.0 ** -50])
+                    probs = [1.0 - d, d]
+                    sp.meta["tiny_obs"] = True
                 lst = list(zip(chosen, probs))
                 if rng.random() < 0.3:
                     others = [o for o in obs if o not in chosen]
